@@ -465,8 +465,11 @@ impl<T> Parser<T> for ParseCommand<T> {
             if self.adjacent {
                 let mut orig_args = args.clone();
 
-                // narrow down the scope to adjacently available elements
-                args.set_scope(args.adjacently_available_from(args.scope().start + 1));
+                // narrow down the scope to adjacently available elements, an adjacent command
+                // nested in a narrower scope (adjacent group or command) stays inside of it
+                let available = args.adjacently_available_from(args.scope().start + 1);
+                let end = available.end.min(args.scope().end).max(available.start);
+                args.set_scope(available.start..end);
 
                 match self
                     .subparser
